@@ -14,62 +14,62 @@ open VaxisModel.Model.Wrap VaxisModel.Lemmas.Wrap
 open VaxisModel.Spec.Wrap (nonWs content conserved lineWidthOK natWidth trimTrailing)
 
 /-- `Scan` returns false at once for width 0 (any oracle, any text). -/
-theorem scan_width_zero {σ : Type} (o : σ → List Cell → Nat × Bool × σ) (rest : List Cell) (st : σ) :
-    scan o 0 rest st = .stop := by
+theorem scan_width_zero {σ : Type} (o : σ → List Cell → Nat × Bool × σ) (ini : σ) (rest : List Cell) (st : σ) :
+    scan o ini 0 rest st = .stop := by
   unfold scan
   simp
 
 /-- `scan_terminates`: a `Scan` call never hangs; it returns false exactly when nothing is left (or
 the width is 0), and otherwise returns true with a strictly shorter `rest`. -/
-theorem scan_terminates {σ : Type} (o : σ → List Cell → Nat × Bool × σ) (hok : OracleOK o)
+theorem scan_terminates {σ : Type} (o : σ → List Cell → Nat × Bool × σ) (ini : σ) (hok : OracleOK o)
     (width : Nat) (rest : List Cell) (st : σ) :
-    (scan o width rest st = .stop ∧ (rest = [] ∨ width = 0)) ∨
-    (∃ rest' st' tok, scan o width rest st = .line rest' st' tok ∧ rest'.length < rest.length) := by
-  rcases scan_cases o width hok rest st with h | ⟨_, r, s, t, h1, h2, _⟩
+    (scan o ini width rest st = .stop ∧ (rest = [] ∨ width = 0)) ∨
+    (∃ rest' st' tok, scan o ini width rest st = .line rest' st' tok ∧ rest'.length < rest.length) := by
+  rcases scan_cases o ini width hok rest st with h | ⟨_, r, s, t, h1, h2, _⟩
   · exact Or.inl h
   · exact Or.inr ⟨r, s, t, h1, h2⟩
 
 /-- The scanning loop `for scanner.Scan() { … }` terminates on every text and every width. -/
-theorem lines_terminate {σ : Type} (o : σ → List Cell → Nat × Bool × σ) (hok : OracleOK o)
+theorem lines_terminate {σ : Type} (o : σ → List Cell → Nat × Bool × σ) (ini : σ) (hok : OracleOK o)
     (width : Nat) (cells : List Cell) (st0 : σ) :
-    ∃ ls, lines o width cells st0 = .ok ls := by
-  obtain ⟨ls, h, _⟩ := scanAll_ok o width hok (cells.length + 1) cells st0 (Nat.lt_succ_self _)
+    ∃ ls, lines o ini width cells st0 = .ok ls := by
+  obtain ⟨ls, h, _⟩ := scanAll_ok o ini width hok (cells.length + 1) cells st0 (Nat.lt_succ_self _)
   exact ⟨ls, h⟩
 
 /-- `conservation`: for every positive width the non-whitespace graphemes of the emitted lines,
 concatenated, are those of the input, in order and with their styles (`Cell` equality includes the
 style). -/
-theorem conservation {σ : Type} (o : σ → List Cell → Nat × Bool × σ) (hok : OracleOK o)
+theorem conservation {σ : Type} (o : σ → List Cell → Nat × Bool × σ) (ini : σ) (hok : OracleOK o)
     (width : Nat) (hw : 0 < width) (cells : List Cell) (st0 : σ) (ls : List (List Cell))
-    (h : lines o width cells st0 = .ok ls) : conserved cells ls = true := by
-  obtain ⟨ls', h', hc⟩ := scanAll_ok o width hok (cells.length + 1) cells st0 (Nat.lt_succ_self _)
+    (h : lines o ini width cells st0 = .ok ls) : conserved cells ls = true := by
+  obtain ⟨ls', h', hc⟩ := scanAll_ok o ini width hok (cells.length + 1) cells st0 (Nat.lt_succ_self _)
   unfold lines at h
   rw [h'] at h
   cases h
   simp [conserved, hc hw]
 
 /-- One `Scan`: what it returns plus what it leaves is what it was given (non-whitespace part). -/
-theorem scan_conserves {σ : Type} (o : σ → List Cell → Nat × Bool × σ) (hok : OracleOK o)
+theorem scan_conserves {σ : Type} (o : σ → List Cell → Nat × Bool × σ) (ini : σ) (hok : OracleOK o)
     (width : Nat) (rest : List Cell) (st : σ) (rest' : List Cell) (st' : σ) (tok : List Cell)
-    (h : scan o width rest st = .line rest' st' tok) :
+    (h : scan o ini width rest st = .line rest' st' tok) :
     content tok ++ content rest' = content rest := by
-  rcases scan_cases o width hok rest st with ⟨hs, _⟩ | ⟨_, r, s, t, h1, _, h3⟩
+  rcases scan_cases o ini width hok rest st with ⟨hs, _⟩ | ⟨_, r, s, t, h1, _, h3⟩
   · rw [hs] at h; cases h
   · rw [h1] at h; cases h; exact h3
 
 /-- `line_width`: every emitted line, ignoring trailing whitespace, is at most `width` columns wide,
 unless it consists of a single grapheme wider than the line.  Holds for every oracle (no
 hypothesis at all) and every width; true of the code since the F44 and F45 fixes. -/
-theorem line_width {σ : Type} (o : σ → List Cell → Nat × Bool × σ)
+theorem line_width {σ : Type} (o : σ → List Cell → Nat × Bool × σ) (ini : σ)
     (width : Nat) (cells : List Cell) (st0 : σ) (ls : List (List Cell))
-    (h : lines o width cells st0 = .ok ls) : ∀ l ∈ ls, lineWidthOK width l = true :=
-  scanAll_width o width _ cells st0 ls h
+    (h : lines o ini width cells st0 = .ok ls) : ∀ l ∈ ls, lineWidthOK width l = true :=
+  scanAll_width o ini width _ cells st0 ls h
 
 /-- `line_width` for a single `Scan`. -/
-theorem scan_line_width {σ : Type} (o : σ → List Cell → Nat × Bool × σ)
+theorem scan_line_width {σ : Type} (o : σ → List Cell → Nat × Bool × σ) (ini : σ)
     (width : Nat) (rest : List Cell) (st : σ) (rest' : List Cell) (st' : σ) (tok : List Cell)
-    (h : scan o width rest st = .line rest' st' tok) : lineWidthOK width tok = true :=
-  scan_width o width rest st rest' st' tok h
+    (h : scan o ini width rest st = .line rest' st' tok) : lineWidthOK width tok = true :=
+  scan_width o ini width rest st rest' st' tok h
 
 /-- `hard_break_ends_line` (structure of a line): a `Scan` takes zero or more whole segments, *none
 of them with the must-break flag* (`Taken`: every step has `br = false`), and then ends in exactly
@@ -78,22 +78,22 @@ whole as the last segment of the line and the next `Scan` starts right behind it
 Hence a segment with a hard break can only be the last one of its line: the line ends with it.
 With `rich_segment_terminator` (a rich-text segment contains a terminator only as its last cell and
 then has the flag) this says that a line terminator always ends the current line. -/
-theorem hard_break_ends_line {σ : Type} (o : σ → List Cell → Nat × Bool × σ) (width : Nat)
+theorem hard_break_ends_line {σ : Type} (o : σ → List Cell → Nat × Bool × σ) (ini : σ) (width : Nat)
     (rest : List Cell) (st : σ) (rest' : List Cell) (st' : σ) (tok : List Cell)
-    (h : scan o width rest st = .line rest' st' tok) :
-    ∃ st1 rest1, Taken o st rest st1 rest1 ∧ Ending o width st1 rest1 st' rest' :=
-  VaxisModel.Lemmas.Wrap.scan_structure o width rest st rest' st' tok h
+    (h : scan o ini width rest st = .line rest' st' tok) :
+    ∃ st1 rest1, Taken o st rest st1 rest1 ∧ Ending o ini width st1 rest1 st' rest' :=
+  VaxisModel.Lemmas.Wrap.scan_structure o ini width rest st rest' st' tok h
 
 /-- `no_needless_split`: a segment whose word part fits on a line of its own (`≤ width`) is never
 divided between two lines: whenever a `Scan` stops inside a segment (the new `rest` is neither the
 start of that segment nor what follows it), that segment's word part is wider than `width`. -/
-theorem no_needless_split {σ : Type} (o : σ → List Cell → Nat × Bool × σ) (width : Nat)
+theorem no_needless_split {σ : Type} (o : σ → List Cell → Nat × Bool × σ) (ini : σ) (width : Nat)
     (rest : List Cell) (st : σ) (rest' : List Cell) (st' : σ) (tok : List Cell)
-    (h : scan o width rest st = .line rest' st' tok) :
+    (h : scan o ini width rest st = .line rest' st' tok) :
     ∃ st1 rest1, Taken o st rest st1 rest1 ∧
       (sumW (trimRight (rest1.take (o st1 rest1).1)) ≤ width →
         rest' = rest1 ∨ rest' = rest1.drop (o st1 rest1).1) := by
-  obtain ⟨st1, rest1, htk, hend⟩ := VaxisModel.Lemmas.Wrap.scan_structure o width rest st rest' st' tok h
+  obtain ⟨st1, rest1, htk, hend⟩ := VaxisModel.Lemmas.Wrap.scan_structure o ini width rest st rest' st' tok h
   refine ⟨st1, rest1, htk, ?_⟩
   intro hfit
   cases hend with
@@ -140,11 +140,11 @@ theorem rich_oracle_ok (lb : Nat → Nat → Bool) : OracleOK (richOracle lb) :=
 
 theorem rich_terminates (lb : Nat → Nat → Bool) (width : Nat) (cells : List Cell) :
     ∃ ls, richLines lb width cells = .ok ls :=
-  lines_terminate _ (richOracle_ok lb) width cells ()
+  lines_terminate _ () (richOracle_ok lb) width cells ()
 
 theorem rich_conservation (lb : Nat → Nat → Bool) (width : Nat) (hw : 0 < width) (cells : List Cell)
     (ls : List (List Cell)) (h : richLines lb width cells = .ok ls) : conserved cells ls = true :=
-  conservation _ (richOracle_ok lb) width hw cells () ls h
+  conservation _ () (richOracle_ok lb) width hw cells () ls h
 
 /-- Non-vacuity: a concrete oracle (break after every space) meets `OracleOK`-style behaviour on a
 concrete text, and the model wraps "ab cd" at width 2 into two lines. -/
